@@ -301,6 +301,7 @@ func copyLoop(c1 io.ReadWriteCloser, c2 io.ReadWriteCloser, shutdown chan struct
 	case <-done:
 	case <-shutdown:
 	}
+	vhook("cl.end", c1)
 	log.Println("copy loop ended")
 }
 
@@ -392,6 +393,7 @@ func (sf *SnowflakeProxy) makePeerConnectionFromOffer(sdp *webrtc.SessionDescrip
 		pr, pw := io.Pipe()
 		conn := &webRTCConn{pc: pc, dc: dc, pr: pr, eventLogger: sf.EventDispatcher}
 		conn.bytesLogger = newBytesSyncLogger()
+		vhook("rs.conn", dc, conn)
 
 		dc.OnOpen(func() {
 			log.Println("OnOpen channel")
@@ -402,6 +404,7 @@ func (sf *SnowflakeProxy) makePeerConnectionFromOffer(sdp *webrtc.SessionDescrip
 			log.Println("OnClose channel")
 			log.Println(conn.bytesLogger.ThroughputSummary())
 			in, out := conn.bytesLogger.GetStat()
+			vhook("dc.onclose", dc, in, out)
 			conn.eventLogger.OnNewSnowflakeEvent(event.EventOnProxyConnectionOver{
 				InboundTraffic:  in,
 				OutboundTraffic: out,
@@ -419,6 +422,7 @@ func (sf *SnowflakeProxy) makePeerConnectionFromOffer(sdp *webrtc.SessionDescrip
 				}
 			}
 			conn.bytesLogger.AddOutbound(n)
+			vhook("dc.onmsg", dc, n, len(msg.Data))
 			if n != len(msg.Data) {
 				panic("short write")
 			}
